@@ -118,6 +118,7 @@ pub struct PathState {
     /// obligations already discharged on this path (the path condition only grows)
     proved: std::collections::HashSet<u32>,
     dump_next: Option<String>,
+    memo_hits: u64,
     /// fork on "denominator == 0" (IEEE-faithful) or assume denominators non-zero (recorded)
     pub fork_div_zero: bool,
     pub assumed_nonzero: u64,
@@ -433,6 +434,12 @@ pub fn decide(c: u32) -> bool {
         if c == C_FALSE {
             return false;
         }
+        // a loop whose conditions repeat identically is answered from the memo without new decisions: bound it
+        // (this happens on branches whose feasibility the solver could not decide)
+        st.memo_hits += 1;
+        if st.memo_hits > 200_000 || st.arena.nodes.len() > 4_000_000 {
+            std::panic::panic_any(CutPath("loop without new decisions (memoised conditions) or term arena too large".into()));
+        }
         if let Some(&v) = st.memo.get(&c) {
             return v;
         }
@@ -732,6 +739,7 @@ pub fn run_path(cfg: &Cfg, tape: Vec<bool>, body: &(dyn Fn() + Sync), want_pc_mo
         lin_stage_hits: 0,
         proved: std::collections::HashSet::new(),
         dump_next: None,
+        memo_hits: 0,
         fork_div_zero: true,
         assumed_nonzero: 0,
         log: vec![],
